@@ -30,6 +30,17 @@ def decTriplet (s : String) : Option (Option Triplet) :=
     | _, _, _ => none
   | _ => none
 
+/-- `n:t|t|…` (n = 0: empty list). -/
+def decTripletList (s : String) : Option (List Triplet) :=
+  match s.splitOn ":" with
+  | [n, body] =>
+    if n == "0" then some [] else
+      (body.splitOn "|").mapM (fun x => match decTriplet x with | some (some t) => some t | _ => none)
+  | _ => none
+
+def decOptTripletList (s : String) : Option (Option (List Triplet)) :=
+  if s == "-" then some none else (decTripletList s).map some
+
 def decColor (name ty num tri : String) : Option Color := do
   let t ← decType ty
   let n ← decOpt num
@@ -74,6 +85,39 @@ def handlers : List (String × (List String → String)) := [
       match decColor name ty num tri with
       | some c => encRes encTriplet (getTruecolor P c (decBool fg))
       | none => "unmodelled"
+    | _ => "bad-args"),
+  -- get_truecolor with an explicit TerminalTheme(bg, fg, normal, bright); lists are `n:t|t|…`, bright `-` = None
+  ("color.truecolor_theme", fun a => match a with
+    | [bg, fgc, normal, bright, name, ty, num, tri, fg] =>
+      match decTriplet bg, decTriplet fgc, decTripletList normal, decOptTripletList bright, decColor name ty num tri with
+      | some (some b), some (some f), some nl, some br, some c =>
+        encRes encTriplet (getTruecolorT P (TerminalTheme.init b f nl br) c (decBool fg))
+      | _, _, _, _, _ => "unmodelled"
+    | _ => "bad-args"),
+  -- ColorTriplet.hex
+  ("color.hex", fun a => match a with
+    | [tri] => match decTriplet tri with
+      | some (some t) => encStr t.hex
+      | _ => "unmodelled"
+    | _ => "bad-args"),
+  -- parse_rgb_hex on an ASCII string (non-ASCII: int() accepts Unicode digits/spaces, not modelled)
+  ("color.parse_hex", fun a => match a with
+    | [s] =>
+      let cs := decStr s
+      if cs.all (fun c => c.toNat < 128) then
+        encRes (fun (r, g, b) => s!"{r},{g},{b}") (parseRgbHex cs)
+      else "unmodelled"
+    | _ => "bad-args"),
+  -- blend_rgb(t1, t2, k / 2^n); admitted sizes keep the double computation exact
+  ("color.blend", fun a => match a with
+    | [t1, t2, k, n] =>
+      match decTriplet t1, decTriplet t2, k.toInt?, n.toNat? with
+      | some (some x), some (some y), some k, some n =>
+        if n ≤ 40 ∧ k.natAbs < 2 ^ 40 then
+          let (r, g, b) := blendRgb x y k n
+          s!"{r},{g},{b}"
+        else "unmodelled"
+      | _, _, _, _ => "unmodelled"
     | _ => "bad-args"),
   -- Palette.match / Palette.__getitem__ on one of the translated palettes
   ("color.match", fun a => match a with
